@@ -31,6 +31,7 @@ var prMenu = map[string]string{
 	"e8":  "/gomaxprocs@num,.fullname",
 	"e9":  "c1@(9 1000),.name@alpha",
 	"e10": "c1@num,c2",
+	"e11": ".config,.name",
 }
 
 type prRes struct {
@@ -181,6 +182,10 @@ func prReplay(c *prCase, focus string) Verdict {
 			} else {
 				k = projs[pi].Project(r)
 			}
+			// what callers do between projections: render the key, ask for the field list
+			// (both go through the projection's flattened-field cache)
+			_ = k.String()
+			_ = projs[pi].FlattenedFields()
 			id, ok := st[pi].ids[k]
 			if !ok {
 				id = len(st[pi].keys) + 1
@@ -199,11 +204,28 @@ func prReplay(c *prCase, focus string) Verdict {
 		for _, f := range flat {
 			names = append(names, f.Name)
 		}
+		if focus == "c09" && strings.Join(names, "|") != strings.Join(p.Flat, "|") && len(names) == len(p.Flat) {
+			// the field list itself is C08's business; for C09 go on with the fields in the order
+			// the expression gives them and judge Less / SortKeys against that order
+			byName := map[string]*benchproc.Field{}
+			for _, f := range flat {
+				byName[f.Name] = f
+			}
+			var re []*benchproc.Field
+			for _, nm := range p.Flat {
+				if f := byName[nm]; f != nil {
+					re = append(re, f)
+				}
+			}
+			if len(re) == len(flat) {
+				flat, names = re, p.Flat
+			}
+		}
 		if strings.Join(names, "|") != strings.Join(p.Flat, "|") {
 			return Verdict{OK: false, Signature: "field-list", Detail: fmt.Sprintf("projection %s (%s): flattened fields %v, want %v; stream=%s", p.ID, prMenu[p.ID], names, p.Flat, jsonStr(c.Stream))}
 		}
 		for i := range results {
-			if p.KeyOf[i] == 0 {
+			if p.KeyOf[i] == 0 || focus == "c09" {
 				continue
 			}
 			k := st[pi].keys[p.KeyOf[i]-1]
